@@ -64,6 +64,9 @@ pub enum PG {
     Call(String, Vec<T>),
     ConsR(T, T, T),
     EmptyR(T),
+    /// `first(list, first)` / `rest(list, rest)`
+    FirstR(T, T),
+    RestR(T, T),
     InFd(T, D),
     PlusFd(T, T, T),
     MinusFd(T, T, T),
@@ -164,6 +167,8 @@ impl PG {
                 out.push_str("emptyr ");
                 a.toks(out)
             }
+            PG::FirstR(a, b) => t2("firstr", a, b, out),
+            PG::RestR(a, b) => t2("restr", a, b, out),
             PG::InFd(x, d) => {
                 out.push_str("infd ");
                 x.toks(out);
@@ -233,6 +238,8 @@ impl PG {
             }
             "consr" => PG::ConsR(T::parse(t), T::parse(t), T::parse(t)),
             "emptyr" => PG::EmptyR(T::parse(t)),
+            "firstr" => PG::FirstR(T::parse(t), T::parse(t)),
+            "restr" => PG::RestR(T::parse(t), T::parse(t)),
             "infd" => {
                 let x = T::parse(t);
                 PG::InFd(x, dom(t))
@@ -349,6 +356,8 @@ pub fn build<K: Kind>(g: &PG, vars: &mut Vars) -> K {
         }
         PG::ConsR(a, b, c) => rel::cons::<DU, DE, K>(t!(a), t!(b), t!(c)).cast_into(),
         PG::EmptyR(a) => rel::empty::<DU, DE, K>(t!(a)).cast_into(),
+        PG::FirstR(a, b) => rel::first::<DU, DE, K>(t!(a), t!(b)).cast_into(),
+        PG::RestR(a, b) => rel::rest::<DU, DE, K>(t!(a), t!(b)).cast_into(),
         PG::InFd(x, d) => match d {
             D::I(a, b) => rel::infdrange::<DU, DE, K>(t!(x), &(*a..=*b)).cast_into(),
             D::V(_) => rel::infd::<DU, DE, K>(t!(x), &fd(d)).cast_into(),
